@@ -10,6 +10,36 @@ sys.path.insert(0, HERE)
 
 CLAIMS = {
     # id: (technique, level text, level note, design ref)
+    "C01": ("CFG cut-set (reachability with permit edges removed) over the VM's MIR; frozen mint-point table with provenance/dominance conditions; per-variant tables",
+            "Static taint discipline decided for every path of the VM: no call hands a value to an output sink except the escaper, a Value::format "
+            "that is unreachable without the autoescape-off / is_safe(same value) permit edges, template text, or the VM itself; the safe mark is "
+            "minted only at the reviewed points whose conditions (popped capture, component result, super() buffer, registered-safe flag's true "
+            "edge, inherited kind) are checked on the MIR; Array/Map/Bytes are never safe; the default escaper handles & < > \" ' with constants "
+            "free of specials; override plumbing into child VMs. A test sees the paths one template takes; this is over all paths and all "
+            "present/future sites. Does not decide user escape functions or safe-registered filters.",
+            "trusts rustc's MIR/trait resolution; pulldown-cmark-escape under fast_escape",
+            "DESIGN.md §5 C01"),
+    "C05": ("who-may-write inventory over State fields; dominance-checked depth guard; provenance of the component context",
+            "Static decision of the isolation/recursion skeleton: State.global_context / include_parent have exactly one writer each, both "
+            "component entry points build their State from build_context's result and assign nothing but `filters`, the component re-entry is "
+            "dominated by the depth test with depth+1 carried into the child VM and through includes, both entry points share the builder and mint "
+            "the result safe. Does not decide the argument-binding logic of build_context (value-level).",
+            "trusts rustc's MIR; stack holds 20 nested interpret frames",
+            "DESIGN.md §5 C05"),
+    "C07": ("call-graph cycle analysis with depth-guard dominance (VM re-entries, value traversals); def-use pairing of the reference chain; who-may-call on registries",
+            "Static decision of: every VM re-entry bounded by a dominating guard; the reference chain (emit => record => merge => validate all five "
+            "kinds => on every acceptance path => panicking lookups keyed by validated names => registries only grow) for all present and future "
+            "emission sites; value-depth recursion of format/==/</cmp/serialize/drop is reported as KNOWN findings with confirmed overflowing "
+            "inputs. Does not decide VM value-stack balance or the reasons behind reviewed panic sites.",
+            "trusts rustc's MIR; registered callbacks; stack sufficiency for the bounded nesting",
+            "DESIGN.md §4.1, §5 C07, §6"),
+    "C11": ("must-run / dominance checks on finalize_templates; visited-set witness on both graph walks; VM re-entry guards",
+            "Static decision that both graph walks run for every template before any commit with errors propagated, that every include edge "
+            "emitted anywhere is recorded for them, that each walk's descent is dominated by the negative membership test with the path set "
+            "extended first (depth <= number of templates), and that rendering cannot recurse without bound even for cycles invisible at add "
+            "time. Does not decide the exactness of the visited-set logic.",
+            "trusts rustc's MIR; stack sufficiency for the bounded nesting",
+            "DESIGN.md §5 C11"),
     "C06": ("call-graph cycle analysis with dominance-checked depth guards; loop progress (must-consume) analysis over MIR",
             "Static decision over the type-checked MIR of the add path: every recursion cycle is cut by a counter-against-constant guard "
             "that dominates the recursive call, or is a strict structural descent / visited-set walk (machine-checked witness); every "
